@@ -41,6 +41,7 @@ pub fn opts(which: Which) -> Opts {
     o.join_pct = 8;
     o.multiline_tag_pct = 12;
     o.close_attr_pct = 10;
+    o.bom_pct = 3;
     o
 }
 
@@ -551,6 +552,18 @@ pub fn check(ctx: &mut Ctx, id: &'static str) {
             }
             ctx.random("ast-documents", 400, 250_000, 15_000_000, |t| gen(t, which), oracle_c15);
             ctx.reshrink::<AstCase, _, _>("ast-documents", oracle_c15, crate::props::clean::shrink_ast);
+            // long files: line numbers of regions far down, a region on the last line with / without a final line break
+            let units: Vec<u64> = vec![7, 125, 253, 1_021, 65_533, 999_997];
+            ctx.exhaustive("large-documents", "6 files x 2 (with / without final line break) that begin with 7 .. 999 997 line breaks: count, line ranges and code blocks of the listed regions", units, |n, obs| {
+                obs.eval();
+                match large_line_numbers(*n) {
+                    Ok(()) => {
+                        obs.nontrivial_counted(|| json!({"leading_line_breaks": n}));
+                        None
+                    }
+                    Err(m) => Some(fail_case("large-line-numbers", &json!({"leading_line_breaks": n}), m)),
+                }
+            });
         }
         Which::C16 => {
             ctx.rule = "cases = documents of the C15 space plus files whose first byte is a line break; list and list_all, pretty and JSON. Oracle: JSON parses into objects with exactly the keys line_range / annotated_code_block / current_status; every item's code block satisfies the rendering rule re-derived from the source (a `_start` line, exactly the source lines first..=last each prefixed by its 1-based number in a column of one fixed width that is read off the output, tabs as four spaces, an `‾end` line; marker columns = number-column width + width of the text left of the first / last removed character with tab = 4); the pretty form with SGR colour codes stripped contains the JSON blocks item by item, in order, and nothing else item-like; every item has highlighted text. Header wording, colours and the width of the number column are not asserted (the property does not fix them). Non-trivial = a region not starting at column 0, containing a tab, or spanning >= 2 lines.".into();
@@ -561,8 +574,8 @@ pub fn check(ctx: &mut Ctx, id: &'static str) {
             ctx.reshrink::<AstCase, _, _>("ast-documents", oracle_c16, crate::props::clean::shrink_ast);
             // items far down in long files: the number column must stay fixed-width when the line numbers of one item
             // differ in their number of digits (9 -> 10, 99 -> 100, ..., 9 999 999 -> 10 000 000)
-            let units: Vec<u64> = vec![7, 97, 997, 9_997, 99_997, 999_997, 9_999_997];
-            ctx.exhaustive("large-line-numbers", "7 files that begin with 10^k - 3 line breaks (k = 1..7), so that the lines of the listed items cross a power of ten; list and list_all, JSON and pretty", units, |n, obs| {
+            let units: Vec<u64> = vec![7, 97, 125, 253, 997, 9_997, 65_533, 99_997, 999_997, 9_999_997];
+            ctx.exhaustive("large-line-numbers", "10 files x 2 (with / without final line break) that begin with 10^k - 3 (k = 1..7), 125, 253 or 65 533 line breaks, so that the lines of the listed items cross a power of ten / of two; a region on the last line; list and list_all, JSON and pretty", units, |n, obs| {
                 obs.eval();
                 match large_line_numbers(*n) {
                     Ok(()) => {
@@ -587,30 +600,42 @@ pub fn check(ctx: &mut Ctx, id: &'static str) {
 /// A file that begins with `n` line breaks, followed by a multi-line ready element (indented, with a tab inside) and a
 /// pending inline one: every item must satisfy the rendering rule of C16.
 fn large_line_numbers(n: u64) -> Result<(), String> {
+    large_document(n, true)?;
+    large_document(n, false)
+}
+
+fn large_document(n: u64, final_newline: bool) -> Result<(), String> {
     let head = "\n".repeat(n as usize);
-    let body = "  <rm name='a'>\n\tx\n  y\n  z</rm> tail\nq <rm name='zz'>p</rm>\n";
+    // a multi-line ready element, a pending inline one, and a ready inline one on the last line (with or without a final
+    // line break: the last line of a long file)
+    let mut body = "  <rm name='a'>\n\tx\n  y\n  z</rm> tail\nq <rm name='zz'>p</rm>\nlast <rm name='a'>r</rm>".to_string();
+    if final_newline {
+        body.push('\n');
+    }
     let src = format!("{head}{body}");
     let cfg = Cfg::simple("<", ">");
     let s1 = head.len() + 2;
     let e1 = head.len() + body.find("</rm>").unwrap() + 5;
     let s2 = head.len() + body.find("<rm name='zz'>").unwrap();
-    let e2 = head.len() + body.rfind("</rm>").unwrap() + 5;
+    let e2 = s2 + "<rm name='zz'>p</rm>".len();
+    let s3 = head.len() + body.rfind("<rm name='a'>").unwrap();
+    let e3 = head.len() + body.rfind("</rm>").unwrap() + 5;
     let first = n + 1;
     for all in [false, true] {
         let js = call_list(&src, &cfg, all, true).map_err(|e| format!("list failed on a file that begins with {n} line breaks: {e}"))?;
         let items = parse_items(&js)?;
-        let want: Vec<(u64, u64, bool, usize, usize)> = if all { vec![(first, first + 3, true, s1, e1), (first + 4, first + 4, false, s2, e2)] } else { vec![(first, first + 3, true, s1, e1)] };
+        let want: Vec<(u64, u64, bool, usize, usize)> = if all { vec![(first, first + 3, true, s1, e1), (first + 4, first + 4, false, s2, e2), (first + 5, first + 5, true, s3, e3)] } else { vec![(first, first + 3, true, s1, e1), (first + 5, first + 5, true, s3, e3)] };
         if items.len() != want.len() {
-            return Err(format!("{} items listed for a file that begins with {n} line breaks, expected {}", items.len(), want.len()));
+            return Err(format!("{} items listed for a file that begins with {n} line breaks (final line break: {final_newline}), expected {}", items.len(), want.len()));
         }
         let pretty = call_list(&src, &cfg, all, false).map_err(|e| format!("pretty list failed: {e}"))?;
         let plain = strip_ansi(&pretty).0;
         let mut pos = 0;
         for (it, (f, l, ready, s, e)) in items.iter().zip(want.iter()) {
             if (it.first, it.last, it.ready) != (*f, *l, *ready) {
-                return Err(format!("item is (lines {}..={}, ready {}), expected ({f}..={l}, {ready}) in a file that begins with {n} line breaks", it.first, it.last, it.ready));
+                return Err(format!("item is (lines {}..={}, ready {}), expected ({f}..={l}, {ready}) in a file that begins with {n} line breaks (final line break: {final_newline})", it.first, it.last, it.ready));
             }
-            check_rendering(&src, *s, *e, &it.block).map_err(|m| format!("file that begins with {n} line breaks, item at lines {f}..={l}: {m}\n  block = {:?}", it.block))?;
+            check_rendering(&src, *s, *e, &it.block).map_err(|m| format!("file that begins with {n} line breaks (final line break: {final_newline}), item at lines {f}..={l}: {m}\n  block = {:?}", it.block))?;
             match plain[pos..].find(it.block.as_str()) {
                 Some(p) => pos += p + it.block.len(),
                 None => return Err(format!("the pretty form (colour codes stripped) does not contain the JSON code block of the item at lines {f}..={l}")),
